@@ -45,6 +45,15 @@ def conj_literals(e, truth=True) -> Optional[Set[Tuple[str, bool]]]:
         return out if truth else None
     if isinstance(e, ast.Constant):
         return set()
+    if isinstance(e, ast.IfExp):
+        # (K if c else B): with K a constant of the opposite truth the value has the wanted truth only through B
+        def const_is(x, t):
+            return isinstance(x, ast.Constant) and bool(x.value) is t
+        for k, other, ctruth in ((e.body, e.orelse, False), (e.orelse, e.body, True)):
+            if const_is(k, not truth):
+                a, b = conj_literals(e.test, ctruth), conj_literals(other, truth)
+                return (a or set()) | (b or set())
+        return None
     return {literal(e, truth)}
 
 
@@ -215,20 +224,73 @@ def _expandable(v, allow_calls=()) -> bool:
     return True
 
 
+def nearest_def_stmt(fn_node, stmt, name: str, chains=None):
+    """(defining Assign, statements executed between it and `stmt`) for the closest `name = <value>` preceding `stmt` in its
+    own block or an enclosing one; None when there is none or a compound statement in between rebinds the name"""
+    chains = chains or block_chains(fn_node)
+    between: List[ast.stmt] = []
+    for block, idx in chains.get(id(stmt), []):
+        for j in range(idx - 1, -1, -1):
+            s = block[j]
+            if isinstance(s, ast.Assign) and len(s.targets) == 1 and isinstance(s.targets[0], ast.Name) and s.targets[0].id == name:
+                return s, between
+            if not isinstance(s, (ast.Assign, ast.Expr)) and any(isinstance(n, ast.Name) and n.id == name and isinstance(n.ctx, ast.Store) for n in ast.walk(s)):
+                return None
+            between.append(s)
+        # leaving this block upwards: when it is a loop body, later statements of the body also run before `stmt` (next iteration)
+        owner = _block_owner(fn_node, block)
+        if isinstance(owner, (ast.For, ast.While)) and block is owner.body:
+            between.extend(block[idx:])
+            between.append(owner)          # the loop target itself is a store
+    return None
+
+
+def _block_owner(fn_node, block):
+    cache = fn_node.__dict__.setdefault('_block_owner', None)
+    if cache is None:
+        cache = {}
+        for n in ast.walk(fn_node):
+            for fld in ('body', 'orelse', 'finalbody'):
+                b = getattr(n, fld, None)
+                if isinstance(b, list):
+                    cache[id(b)] = n
+            for h in getattr(n, 'handlers', []) or []:
+                cache[id(h.body)] = h
+        fn_node.__dict__['_block_owner'] = cache
+    return cache.get(id(block))
+
+
+def _stores_in(stmts) -> Set[str]:
+    out = set()
+    for s in stmts:
+        for n in ast.walk(s):
+            if isinstance(n, ast.Name) and isinstance(n.ctx, (ast.Store, ast.Del)):
+                out.add(n.id)
+    return out
+
+
 def expand_names(fn_node, stmt, expr, depth=3, chains=None, allow_calls=()):
     """expr with local names replaced by their nearest simple definitions (slices, attributes, names, calls of
-    pure-looking methods); used to compare expressions written through different intermediate locals"""
+    pure-looking methods); used to compare expressions written through different intermediate locals.
+    A definition is substituted only when none of the names it reads is rebound between the definition and the use, and the
+    names inside it are in turn expanded at the DEFINITION (so `x = f(x)` expands to f(<the earlier x>))."""
     import copy as _copy
     chains = chains or block_chains(fn_node)
-    params = {a.arg for a in ast.walk(fn_node.args) if isinstance(a, ast.arg)}
 
     class R(ast.NodeTransformer):
         def visit_Name(self, n):
-            if isinstance(n.ctx, ast.Load) and n.id not in params and depth > 0:
-                v = nearest_def(fn_node, stmt, n.id, chains)
-                if v is not None and isinstance(v, (ast.Subscript, ast.Attribute, ast.Name, ast.Call, ast.BinOp, ast.Compare, ast.BoolOp, ast.IfExp, ast.Constant, ast.UnaryOp)):
-                    if _expandable(v, allow_calls):
-                        return expand_names(fn_node, stmt, _copy.deepcopy(v), depth - 1, chains, allow_calls)
+            if isinstance(n.ctx, ast.Load) and depth > 0:
+                r = nearest_def_stmt(fn_node, stmt, n.id, chains)
+                if r is None:
+                    return n
+                d, between = r
+                v = d.value
+                if isinstance(v, (ast.Subscript, ast.Attribute, ast.Name, ast.Call, ast.BinOp, ast.Compare, ast.BoolOp, ast.IfExp, ast.Constant, ast.UnaryOp, ast.JoinedStr)) \
+                        and _expandable(v, allow_calls):
+                    reads = {x.id for x in ast.walk(v) if isinstance(x, ast.Name)}
+                    if reads & (_stores_in(between) - {n.id}) or (n.id in reads and n.id in _stores_in(between)):
+                        return n
+                    return expand_names(fn_node, d, _copy.deepcopy(v), depth - 1, chains, allow_calls)
             return n
     return R().visit(_copy.deepcopy(expr))
 
@@ -252,3 +314,132 @@ def yield_tuples(fn_node):
 def lit(text: str, truth: bool = True) -> Tuple[str, bool]:
     """canonical literal of an expression text (same normalisation as the facts engine)"""
     return literal(ast.parse(text, mode='eval').body, truth)
+
+
+def counted_loop(fn_node, loop, chains=None):
+    """Index domain of a counting loop, whichever way it is written.
+
+    `for v in range(lo, hi)` / `range(hi)` / `range(lo, min(h1, h2))`   and
+    `v = lo ... while v < h1 and v - k <= h2: <body>; v += 1`            (v advanced exactly once, at the end of the
+    body, never otherwise written, no `continue` of this loop, every conjunct an upper bound on v)
+    both denote  v = lo, lo + 1, ... while v < min(uppers).   Returns (v, lo, frozenset(uppers), problems) with affine
+    forms over the opaque symbols of the source, or None when the loop is not recognisably of that kind."""
+    from .affine import simple_aff, Aff
+    probs = []
+    if isinstance(loop, ast.For):
+        it = loop.iter
+        if not (isinstance(loop.target, ast.Name) and isinstance(it, ast.Call) and isinstance(it.func, ast.Name) and it.func.id == 'range'
+                and 1 <= len(it.args) <= 3 and not it.keywords):
+            return None
+        if len(it.args) == 3 and not (isinstance(it.args[2], ast.Constant) and it.args[2].value == 1):
+            return None
+        v = loop.target.id
+        lo = simple_aff(it.args[0]) if len(it.args) >= 2 else Aff(0)
+        hi_e = it.args[1] if len(it.args) >= 2 else it.args[0]
+        his = hi_e.args if isinstance(hi_e, ast.Call) and isinstance(hi_e.func, ast.Name) and hi_e.func.id == 'min' and not hi_e.keywords else [hi_e]
+        ups = [simple_aff(h) for h in his]
+        if lo is None or any(u is None for u in ups):
+            return None
+        for n in ast.walk(loop):
+            if n is not loop.target and isinstance(n, ast.Name) and n.id == v and isinstance(n.ctx, ast.Store):
+                probs.append(f"loop variable {v} is rebound inside the loop")
+        return v, lo, frozenset(ups), probs
+    if not isinstance(loop, ast.While) or loop.orelse:
+        return None
+    atoms = loop.test.values if isinstance(loop.test, ast.BoolOp) and isinstance(loop.test.op, ast.And) else [loop.test]
+    # the counter: the name advanced by the last statement of the body
+    last = loop.body[-1] if loop.body else None
+    if not (isinstance(last, ast.AugAssign) and isinstance(last.op, ast.Add) and isinstance(last.target, ast.Name)
+            and isinstance(last.value, ast.Constant) and last.value.value == 1):
+        return None
+    v = last.target.id
+    ups = []
+    for a in atoms:
+        if not (isinstance(a, ast.Compare) and len(a.ops) == 1):
+            return None
+        l, r = simple_aff(a.left), simple_aff(a.comparators[0])
+        if l is None or r is None:
+            return None
+        op = a.ops[0]
+        if isinstance(op, (ast.Gt, ast.GtE)):
+            l, r = r, l
+            op = ast.Lt() if isinstance(op, ast.Gt) else ast.LtE()
+        if not isinstance(op, (ast.Lt, ast.LtE)):
+            return None
+        d = l - r                       # d < 0  or d <= 0
+        cv = d.t.get(v, 0)
+        if cv != 1:
+            return None
+        rest = Aff.sym(v) - d           # v < rest  /  v <= rest
+        ups.append(rest if isinstance(op, ast.Lt) else rest + 1)
+    chains = chains or block_chains(fn_node)
+    init = nearest_def(fn_node, loop, v, chains)
+    lo = simple_aff(init) if init is not None else None
+    if lo is None:
+        return None
+    for n in ast.walk(loop):
+        if isinstance(n, ast.Name) and n.id == v and isinstance(n.ctx, ast.Store) and n is not last.target:
+            probs.append(f"counter {v} is written a second time inside the loop")
+
+    def own_continue(stmts):
+        for s in stmts:
+            if isinstance(s, ast.Continue):
+                return True
+            if isinstance(s, (ast.For, ast.While, ast.FunctionDef, ast.AsyncFunctionDef, ast.ClassDef)):
+                continue
+            for fld in ('body', 'orelse', 'finalbody'):
+                if own_continue(getattr(s, fld, []) or []):
+                    return True
+            for h in getattr(s, 'handlers', []) or []:
+                if own_continue(h.body):
+                    return True
+        return False
+    if own_continue(loop.body):
+        probs.append(f"a `continue` bypasses the advance of {v}")
+    # no statement between the initialisation and the loop may write the counter: nearest_def already returns the closest one
+    return v, lo, frozenset(ups), probs
+
+
+def own_exits(loop) -> List[ast.AST]:
+    """break / return / raise statements that leave `loop` early (nested loops keep their own break)"""
+    out = []
+
+    def rec(stmts, depth):
+        for s in stmts:
+            if isinstance(s, (ast.Return, ast.Raise)):
+                out.append(s)
+            elif isinstance(s, ast.Break) and depth == 0:
+                out.append(s)
+            elif isinstance(s, (ast.FunctionDef, ast.AsyncFunctionDef, ast.ClassDef)):
+                continue
+            elif isinstance(s, (ast.For, ast.While)):
+                rec(s.body, depth + 1)
+                rec(s.orelse, depth)
+            else:
+                for fld in ('body', 'orelse', 'finalbody'):
+                    rec(getattr(s, fld, []) or [], depth)
+                for h in getattr(s, 'handlers', []) or []:
+                    rec(h.body, depth)
+    rec(loop.body, 0)
+    return out
+
+
+def must_set_flow(fn_node, transfer: Callable[[ast.AST, frozenset], frozenset], init=frozenset()):
+    """Forward must-analysis over sets (join = intersection): (cfg, {node id: set on entry}).  `transfer(stmt, set)` is
+    applied to every completed simple statement; an exceptional edge carries the entry state."""
+    cfg = CFG(fn_node)
+    state = {cfg.entry: frozenset(init)}
+    work = [cfg.entry]
+    while work:
+        nid = work.pop()
+        node = cfg.nodes[nid]
+        fin = state[nid]
+        fout = transfer(node.ast, fin) if node.kind == 'stmt' else fin
+        for (l, y) in cfg.succ[nid]:
+            f2 = fin if l == 'exc' else fout
+            old = state.get(y)
+            new = f2 if old is None else (old & f2)
+            if old is None or new != old:
+                state[y] = new
+                work.append(y)
+    return cfg, state
